@@ -5,7 +5,7 @@ __HEADER_PLACEHOLDER__
 import functools
 import re
 import unicodedata
-from urllib.parse import urljoin, urldefrag
+from urllib.parse import urlsplit, urlunsplit, urldefrag
 
 from . import model as _model
 from . import ref_xpath as rx
@@ -22,6 +22,58 @@ sort_is_codepoint = True        # xsl:sort data-type="text" compares by Unicode 
 _GUARD_PFX = '#g'               # internal prefix (not an NCName: cannot clash)
 _GUARD_URI = '#vf-internal'
 _BASE_KEY = '#base'             # key in the per-expression namespace map: module base URI
+
+
+def _remove_dots(path):
+    out = []
+    segs = path.split('/')
+    for i, seg in enumerate(segs):
+        last = i == len(segs) - 1
+        if seg == '.':
+            if last:
+                out.append('')
+        elif seg == '..':
+            if len(out) > 1 or (out and out[0] != ''):
+                out.pop()
+            if last:
+                out.append('')
+        else:
+            out.append(seg)
+    return '/'.join(out)
+
+
+def urljoin(base, ref):
+    """RFC 3986 5.2 reference resolution, scheme-independent (urllib's urljoin
+    refuses unknown schemes)."""
+    if not base:
+        return ref
+    r = urlsplit(ref)
+    if r.scheme:
+        return ref
+    if ref == '':
+        return urldefrag(base)[0]
+    b = urlsplit(base)
+    if r.netloc:
+        s = urlunsplit((b.scheme, r.netloc, _remove_dots(r.path), r.query, r.fragment))
+    elif not r.path:
+        s = urlunsplit((b.scheme, b.netloc, b.path, r.query or b.query, r.fragment))
+    else:
+        if r.path.startswith('/'):
+            path = _remove_dots(r.path)
+        else:
+            if b.netloc and not b.path:
+                path = '/' + r.path
+            else:
+                path = b.path[:b.path.rfind('/') + 1] + r.path
+            path = _remove_dots(path)
+        s = urlunsplit((b.scheme, b.netloc, path, r.query, r.fragment))
+    pre = b.scheme + ':///'
+    if b.scheme and not b.netloc:
+        if base.startswith(pre) and not s.startswith(pre):
+            s = b.scheme + '://' + s[len(b.scheme) + 1:]
+        elif not base.startswith(pre) and s.startswith(pre):
+            s = b.scheme + ':' + s[len(pre) - 1:]
+    return s
 
 
 class XSLTStaticError(Exception):
